@@ -57,6 +57,18 @@ func transferPolicy() pw.Policy {
 
 // isCurrentHashString: v is strconv.FormatUint(GobTypesHash(), 10) computed on this path.
 func isCurrentHashString(v *pw.Val) bool {
+	// string(strconv.AppendUint(buf[:0], GobTypesHash(), 10)) renders the same digits
+	if v != nil && v.Kind == pw.KConv && v.Src != nil && v.Src.Kind == pw.KCall && v.Src.Ev != nil && v.Src.Ev.Role == "Std:strconv.AppendUint" && len(v.Src.Ev.Args) == 3 {
+		a := v.Src.Ev.Args
+		if a[1].Kind == pw.KCall && a[1].Ev.Role == "Repo:GobTypesHash" && a[2].Const != nil {
+			if n, ok := constant.Int64Val(a[2].Const); ok && n == 10 {
+				// the destination must be empty (buf[:0] / nil): anything already in it would be part of the string
+				d := a[0]
+				return d.Kind == pw.KSlice || d.Kind == pw.KZero || d.Kind == pw.KConst
+			}
+		}
+		return false
+	}
 	if v == nil || v.Kind != pw.KCall || v.Ev.Role != "Std:strconv.FormatUint" || len(v.Ev.Args) != 2 {
 		return false
 	}
